@@ -60,5 +60,12 @@ func init() {
 		{Kind: "calls", Name: "ValidateRTM", Arg: "append"},
 		{Kind: "calls", Name: "ValidateRTM", Arg: "checkBoundaries"},
 		{Kind: "calls", Name: "getKeysFromDatabase", Arg: "parseKeyDatabase"},
+		// the key chain as a whole (follow-up wp-c16b): one root key, one key database, two tokens
+		{Kind: "calls", Name: "getKeysFromDatabase", Arg: "NewRootKey"},
+		{Kind: "calls", Name: "getKeysFromDatabase", Arg: "newPSPBinary"},
+		{Kind: "calls", Name: "GetKeys", Arg: "getKeysFromDatabase"},
+		{Kind: "calls", Name: "GetKeys", Arg: "NewTokenKey"},
+		{Kind: "calls", Name: "GetPSBSignBIOSKey", Arg: "GetKeys"},
+		{Kind: "calls", Name: "ValidateRTM", Arg: "GetPSBSignBIOSKey"},
 	}})
 }
